@@ -82,6 +82,9 @@ func init() {
 	mutant(&Mutant{Name: "c05-colour-lower-cased", Property: "C05", File: "svg/svg.go",
 		Old: "\t\t\t\t//parse.ToLower(val)\n", New: "\t\t\t\tval = parse.ToLower(val)\n",
 		Rule: "R05.18", Construct: "colour value changed by"})
+	mutant(&Mutant{Name: "c05-style-text-whitespace-collapsed", Property: "C05", File: "svg/svg.go",
+		Old: "\t\t\t\tif tag != Style {\n\t\t\t\t\tt.Text = parse.ReplaceMultipleWhitespace(t.Text)\n\t\t\t\t}\n", New: "\t\t\t\tt.Text = parse.ReplaceMultipleWhitespace(t.Text)\n",
+		Rule: "R05.19", Construct: "not in a style element"})
 	mutant(&Mutant{Name: "c05-drop-title", Property: "C05", File: "svg/svg.go",
 		Old: "\t\t\tif tag == Metadata {\n\t\t\t\tt.Data = nil\n", New: "\t\t\tif tag == Metadata {\n\t\t\t\tt.Data = nil\n\t\t\t} else if tag == Style {\n\t\t\t\tt.Data = nil\n",
 		Rule: "R05.3", Construct: "element dropped"})
@@ -107,6 +110,10 @@ func runC05(c *Ctx) {
 	c.r0516(pk)
 	c.hexCompaction("R05.17", "svg", 1)
 	c.r0518(pk)
+	c.r0519(pk, "R05.19")
+	c.r0520(pk)
+	// the same escaper as in the XML minifier: SVG is XML
+	c.r069("R05.21", "svg")
 	// Inline decides whether the root element keeps its xmlns: it is a per-call fact and must not be written
 	// into the shared option struct (a later standalone document would lose its namespace)
 	c.alsoUnder(map[string]string{"R13.1": "R05.11"}, func(construct string) bool { return strings.Contains(construct, "svg.") }, func() { c.r131() })
@@ -1670,4 +1677,89 @@ func (c *Ctx) r0518(pk *packages.Package) {
 		}
 	}
 	c.R.Floor(rule, "rewrites of a colour value", n, 4)
+}
+
+// R05.19 (= R11.10): the text of a style element is not white-space-collapsed.
+func (c *Ctx) r0519(pk *packages.Package, rule string) {
+	c.R.Rule(rule, "the text of an SVG style element is a style sheet, in which runs of white space are significant inside strings (`content:\"x    y\"`, a quoted font family); the CSS minifier removes the insignificant ones itself. In svg.(*Minifier).Minify every call of parse.ReplaceMultipleWhitespace / parse.ReplaceMultipleWhitespaceAndEntities on the data of a text or CDATA token is dominated by the outcome `tag != Style` — the collapse is for character data of other elements only")
+	info := pk.TypesInfo
+	fd := c.fn(rule, pk, "Minifier.Minify")
+	if fd == nil {
+		return
+	}
+	g := c.graph(pk, fd)
+	n := 0
+	for _, y := range g.Nodes {
+		a := y.Ast()
+		if a == nil || y.Kind != flow.KStmt {
+			continue
+		}
+		calls := findCalls(info, a, false, load.ParseMod+".ReplaceMultipleWhitespace", load.ParseMod+".ReplaceMultipleWhitespaceAndEntities")
+		if len(calls) == 0 {
+			continue
+		}
+		// only character data: the argument is t.Data / t.Text
+		arg := nospace(str(calls[0].Args[0]))
+		if arg != "t.Data" && arg != "t.Text" {
+			continue
+		}
+		inText := false
+		notStyle := false
+		for _, f := range g.DomFacts(y) {
+			if f.Test.Kind == flow.KCase && f.Value {
+				cs := nospace(str(f.Test.Expr))
+				if cs == "xml.TextToken" || cs == "xml.CDATAToken" {
+					inText = true
+				}
+			}
+			if f.Test.Kind == flow.KCond {
+				cs := nospace(str(f.Test.Expr))
+				if (cs == "tag==Style" || cs == "Style==tag") && !f.Value || (cs == "tag!=Style" || cs == "Style!=tag") && f.Value {
+					notStyle = true
+				}
+			}
+		}
+		if !inText {
+			continue
+		}
+		n++
+		c.R.Check(notStyle, rule, fmt.Sprintf("svg.Minifier.Minify/white space of character data collapsed#%d not in a style element", n), c.pos(a), "behind tag != Style", "the white space of a text / CDATA token is collapsed also when it is the content of a style element: `<style>a{content:\"x    y\"}</style>` → `\"x y\"`, a different generated content (and a quoted font family `\"My  Font\"` no longer names the font)")
+	}
+	c.R.Floor(rule, "white space collapses of character data", n, 2)
+}
+
+// R05.20: numbers are shortened only in attributes that hold numbers.
+func (c *Ctx) r0520(pk *packages.Package) {
+	const rule = "R05.20"
+	c.R.Rule(rule, "svg.(*Minifier).Minify rewrites an attribute value as a number with a unit (shortenDimension: leading zeros, trailing zeros, `px`, Precision) when it *looks like* one. Text-valued attributes can look like one — font-family=\"007\", unicode=\"1.0\", glyph-name, target, title-like metadata — and are then changed in meaning. The shortening applied to a whole attribute value must be licensed by what the attribute is: the call is dominated by a positive test of the attribute (a look-up in a set of numeric attributes, or comparisons `attr == K`), not merely by exclusions (`attr != Version && !isNameAttr(…)`)")
+	info := pk.TypesInfo
+	fd := c.fn(rule, pk, "Minifier.Minify")
+	if fd == nil {
+		return
+	}
+	g := c.graph(pk, fd)
+	n := 0
+	for _, y := range g.Nodes {
+		a := y.Ast()
+		if a == nil || y.Kind != flow.KStmt {
+			continue
+		}
+		calls := findCalls(info, a, false, load.Mod+"/svg.(Minifier).shortenDimension")
+		if len(calls) == 0 || nospace(str(calls[0].Args[0])) != "val" {
+			continue
+		}
+		n++
+		positive := false
+		for _, f := range g.DomFacts(y) {
+			if f.Test.Kind != flow.KCond {
+				continue
+			}
+			cs := nospace(str(f.Test.Expr))
+			if f.Value && (strings.HasPrefix(cs, "attr==") || strings.Contains(cs, "[attr]")) {
+				positive = true
+			}
+		}
+		c.R.Check(positive, rule, fmt.Sprintf("svg.Minifier.Minify/whole attribute value shortened as a number#%d only for numeric attributes", n), c.pos(a), "behind a positive test of the attribute", "every attribute whose value looks like a number is rewritten as one, except the listed exclusions: `<text font-family=\"007\">` → `font-family=\"7\"`, `<glyph unicode=\"1.0\">` → `unicode=\"1\"`, `<a target=\"1.0\">` → `target=\"1\"`")
+	}
+	c.R.Floor(rule, "whole-value number shortenings", n, 1)
 }
